@@ -3,6 +3,8 @@
 (patch.diff, demo.py, notes.md, meta.json). Usage: tools/collect_seeds.py /tmp/seed/out /tmp/seed/needs.json"""
 import os, re, sys, json, shutil
 src, needs = sys.argv[1], json.load(open(sys.argv[2]))
+RENAME = dict(zip("AB", sys.argv[3])) if len(sys.argv) > 3 else {"A": "A", "B": "B"}     # e.g. "CD": second round -> <id>-C, <id>-D
+ROUND = sys.argv[4] if len(sys.argv) > 4 else "1"
 V = os.path.dirname(os.path.dirname(os.path.abspath(__file__)))
 rows = []
 for key in sorted(needs):
@@ -10,7 +12,8 @@ for key in sorted(needs):
     d = os.path.join(src, pid, x)
     if not os.path.exists(os.path.join(d, "patch.diff")):
         continue
-    out = os.path.join(V, "seeded", key)
+    key_out = f"{pid}-{RENAME[x]}"
+    out = os.path.join(V, "seeded", key_out)
     os.makedirs(out, exist_ok=True)
     for f in ("patch.diff", "demo.py", "notes.md"):
         if os.path.exists(os.path.join(d, f)):
@@ -23,7 +26,7 @@ for key in sorted(needs):
     last = re.findall(r"check (C\d+) exit=(\d+) : (\d+) violation", rec)
     what = re.findall(r"VIOLATION property=\S+ replay=\S+\s+# (.*?) \(\d+ case", rec)
     meta = {
-        "id": key, "property": pid, "origin": "independent sub-agent given only the property text and a scratch worktree",
+        "id": key_out, "round": ROUND, "property": pid, "origin": "independent sub-agent given only the property text and a scratch worktree",
         "change": needs[key][0], "needs_to_manifest": needs[key][1],
         "files_touched": sorted(set(re.findall(r"^diff --git a/(\S+)", open(os.path.join(d, "patch.diff")).read(), re.M))),
         "confirmed": {
@@ -36,6 +39,6 @@ for key in sorted(needs):
         "quick_check_now": {"check": last[-1][0], "exit": int(last[-1][1]), "violation_groups": int(last[-1][2]), "first_report": what[0][:200] if what else None} if last else None,
     }
     json.dump(meta, open(os.path.join(out, "meta.json"), "w"), indent=1)
-    rows.append((key, meta["quick_check_when_first_run"], meta["quick_check_now"]))
+    rows.append((key_out, meta["quick_check_when_first_run"], meta["quick_check_now"]))
 for r in rows:
     print(r[0], "first:", r[1] and r[1]["exit"], "now:", r[2] and r[2]["exit"], ((r[2] or {}).get("first_report") or "")[:90])
